@@ -84,6 +84,7 @@ class Acc:
         self.samples = []
         self.states = set()          # 64-bit hashes of canonical states (E-state)
         self.notes = []
+        self.succ = set()            # successor states reported by an expansion shard (E-state BFS)
 
     # -- recording -----------------------------------------------------------------------------
     def ev(self, n=1):
@@ -152,6 +153,7 @@ class Acc:
                 self.samples.append(s)
         for n in other.notes:
             self.note(n)
+        self.succ |= other.succ
         return self
 
 
